@@ -733,7 +733,7 @@ V("c12-message-unpacks-tuple", "C12", "fire", GE, "            \"The (max.) inte
 V("c12-silent-message-tuple-wrapped", "C12", "silent", GE, "            \"The (max.) intervention size cannot be larger than the number of variables.\")", "            \"The (max.) intervention size cannot be larger than the number of variables (size=%s).\" % (size,))", what="operand wrapped in a 1-tuple")
 V("c12-silent-message-format", "C12", "silent", GE, "            \"The (max.) intervention size cannot be larger than the number of variables.\")", "            \"The (max.) intervention size cannot be larger than the number of variables (size={}).\".format(size))", what="str.format")
 V("c17-memoised-generator", "C17", "fire", UT, "from functools import reduce\n", "from functools import reduce, lru_cache\n\n\n@lru_cache(maxsize=None)\ndef _generator(random_state):\n    return np.random.default_rng(random_state)\n", rule="SEED.shuffle",
-  more=[(UT, "    rng = np.random.default_rng(random_state)\n    for sample in data:", "    rng = _generator(random_state)\n    for sample in data:")], what="memoised generator: the second call with the same seed continues the stream")
+  more=[(UT, "    rng = np.random.default_rng(random_state)\n    for sample in data:", "    rng = _generator(random_state)\n    for sample in data:")], what="memoised generator: the second call with the same seed continues the stream (decided by C13's R1.generator; for C17's form rule the new helper is another shape: shape gate)", accept_inconclusive=True)
 V("c13-memoised-generator", "C13", "fire", UT, "from functools import reduce\n", "from functools import reduce, lru_cache\n\n\n@lru_cache(maxsize=None)\ndef _generator(random_state):\n    return np.random.default_rng(random_state)\n", rule="R1.generator",
   more=[(UT, "    rng = np.random.default_rng(random_state)\n    for sample in data:", "    rng = _generator(random_state)\n    for sample in data:")], what="memoised generator: the second call with the same seed continues the stream")
 V("c17-silent-generator-helper", "C17", "silent", UT, "from functools import reduce\n", "from functools import reduce\n\n\ndef _generator(random_state):\n    return np.random.default_rng(random_state)\n",
@@ -1482,7 +1482,7 @@ V("rf-c17-generator-helper", "C17", "silent", *_e[0], more=_e[1:], what="fold bo
 _e = _c17_gen(cond="i < n_folds - 2")
 V("rf-c17-generator-helper-last-two", "C17", "fire", *_e[0], more=_e[1:], rule="LAST", what="generator form, remainder taken by the last two folds")
 _e = _c17_gen(adv="")
-V("rf-c17-generator-helper-no-advance", "C17", "fire", *_e[0], more=_e[1:], rule="CONTIG", what="generator form, cursor never advances")
+V("rf-c17-generator-helper-no-advance", "C17", "fire", *_e[0], more=_e[1:], rule="CONTIG", what="generator form, cursor never advances (a new helper: the two-way rule is stopped by the shape gate)", accept_inconclusive=True)
 V("rf-c17-manual-counter", "C17", "silent", UT, "        for i, ratio in enumerate(ratios):\n", "        i = -1\n        for ratio in ratios:\n            i += 1\n", what="index kept by hand, incremented first", accept_inconclusive=True)
 V("rf-c17-manual-counter-after", "C17", "silent", UT, "        start = 0\n        for i, ratio in enumerate(ratios):\n", "        start = 0\n        i = 0\n        for ratio in ratios:\n",
   more=[(UT, "            folds[i].append(fold_sample)\n", "            folds[i].append(fold_sample)\n            i += 1\n")], what="index kept by hand, incremented at the end of the body")
